@@ -4,6 +4,7 @@
 package val
 
 import (
+	"encoding/json"
 	"bytes"
 	"fmt"
 	"math"
@@ -493,4 +494,14 @@ func GenMap(t *rapid.T, cfg Cfg, depth int) V {
 		out.M = append(out.M, KV{k, gen(t, cfg, depth-1)})
 	}
 	return out
+}
+
+// String renders v as compact JSON (for failure messages).
+func (v V) String() string {
+	type alias V
+	b, err := json.Marshal(alias(v))
+	if err != nil {
+		return fmt.Sprintf("%#v", alias(v))
+	}
+	return string(b)
 }
